@@ -5,7 +5,9 @@ V = os.path.dirname(os.path.dirname(os.path.abspath(__file__)))
 props = sys.argv[1:] or ["C%02d" % i for i in range(1, 21)]
 for P in props:
     for k in (1, 2, 3, 4, 5):
-        src = "/tmp/wt/%s/out/m%d" % (P, k)
+        # later rounds: SEEDED_SUFFIX=r2 SEEDED_OFFSET=3 reads /tmp/wt/<P>r2/out/m<k> and stores it as <P>-m<k+3>
+        suffix, off = os.environ.get("SEEDED_SUFFIX", ""), int(os.environ.get("SEEDED_OFFSET", "0"))
+        src = "/tmp/wt/%s%s/out/m%d" % (P, suffix, k)
         if not os.path.isfile(src + "/patch.diff"):
             continue
         conf = open(src + "/confirm.txt").read().strip() if os.path.exists(src + "/confirm.txt") else ""
@@ -16,7 +18,7 @@ for P in props:
         flaky_only = suite != "same" and all(("test_cbcheck_determinate" in t or "test_fdepsd_absacce" in t) for t in re.findall(r"FAILED (\S+)", suite))
         if base != 0 or mut == 0 or not (suite == "same" or flaky_only):
             print(P, k, "REJECTED:", conf); continue
-        dst = os.path.join(V, "seeded", "%s-m%d" % (P, k))
+        dst = os.path.join(V, "seeded", "%s-m%d" % (P, k + off))
         os.makedirs(dst, exist_ok=True)
         for f in ("patch.diff", "demo.py", "notes.md"):
             if os.path.exists(src + "/" + f):
@@ -25,10 +27,10 @@ for P in props:
         mp = dst + "/meta.json"
         meta = json.load(open(mp)) if os.path.exists(mp) else {}
         meta.update(dict(
-            id="%s-m%d" % (P, k), property=P,
+            id="%s-m%d" % (P, k + off), property=P,
             origin="written by a fresh sub-agent that was given only the property text and its own scratch worktree of /repo (nothing from /verif)",
             needs_to_manifest=" ".join(notes.split())[:900],
-            confirmed=dict(worktree="/tmp/wt/%s (scratch, removed afterwards)" % P,
+            confirmed=dict(worktree="/tmp/wt/%s%s (scratch, removed afterwards)" % (P, suffix),
                            ran=["git checkout -- . ; python out/m%d/demo.py  -> exit %d" % (k, base),
                                 "git apply out/m%d/patch.diff ; python out/m%d/demo.py -> exit %d" % (k, k, mut),
                                 "OMP_NUM_THREADS=1 python -m pytest -q -p no:cacheprovider --timeout=900 --continue-on-collection-errors -> failing set %s" %
